@@ -109,6 +109,13 @@ void verif_text_equal(const char *a, long na, const char *b, long nb, const char
   printf("ASSERT %s.same_structure %s\n", label, same ? "ok" : "FAIL");
   printf("ASSERT %s.numbers %s\n", label, nums ? "ok" : "FAIL");
 }
+#ifdef _OPENMP
+#include <omp.h>
+void verif_omp_config(int threads, int single_thread, int reverse) { omp_set_num_threads(threads > 4 ? 4 : threads); }
+#else
+void verif_omp_config(int threads, int single_thread, int reverse) { }
+#endif
+int verif_omp_regions(void) { return -1; }
 long verif_param(const char *name, long dflt) { std::string k = std::string("param.") + name; if (has(k.c_str())) return strtol(inputs[k].c_str(), nullptr, 10); return dflt; }
 void verif_need_module(void) { static colvarproxy_stub *p = nullptr; if (!p && !cvm::main()) p = new colvarproxy_stub(); }
 }
